@@ -21,6 +21,7 @@ covered by the segmentation theorems of C21 and C24 and by the end-to-end scenar
 Core-only.
 -/
 import SquidModel.Smuggle.Framing
+import SquidModel.Header.ClSpec
 import SquidModel.Http1.Request
 import SquidModel.Chunked.Feed
 
@@ -30,6 +31,9 @@ open SquidModel SquidModel.Header
 structure Cfg where
   /-- `Config.onoff.relaxed_header_parser`, `Config.maxRequestHeaderSize` and the repair switches of the request parser -/
   h1 : Http1.Cfg
+  /-- source variants (candidate repairs of notes/fixes/, probed in the staged code by translate/smuggle_cfg.py) -/
+  closeAfterTeCl : Bool := false
+  rejectNonGet09 : Bool := false
   deriving DecidableEq, Repr
 
 def Cfg.relaxed (c : Cfg) : Bool := c.h1.relaxed
@@ -82,8 +86,16 @@ inductive Head where
   | rej (status : Nat) (site : Site)
   | throws                                 -- a Must() inside HttpHeader::parse (String capacity)
   | connect (rest : Bytes)
-  | ok (rest : Bytes) (es : List Entry) (contentLength : Int) (vmaj vmin : Nat) (method uri : Bytes)
+  | ok (rest : Bytes) (es : List Entry) (contentLength : Int) (vmaj vmin : Nat) (method uri : Bytes) (keepalive : Bool)
   deriving DecidableEq, Repr
+
+/-- a Content-Length field was among the field lines `HttpHeader::parse` went through (`clen.sawGood || clen.sawBad`) -/
+def clSeen (cfg : Cfg) (st : Http1.PState) : Bool :=
+  if st.vmaj ≥ 1 ∧ !st.mime.isEmpty then
+    match rawEntries ⟨cfg.relaxed, .request, false⟩ st.mime with
+    | some raw => !(clValues raw).isEmpty
+    | none => false
+  else false
 
 /-- `Http::Message::parseHeader`: `hp.headerBlockSize() && !header.parse(...)`; for HTTP/0.9 nothing is parsed -/
 def headerOf (cfg : Cfg) (st : Http1.PState) : Header.Outcome :=
@@ -116,10 +128,11 @@ def head (cfg : Cfg) (url : Bytes → Bytes → Option UrlView) (buf : Bytes) : 
             let mf := getInt64 h.entries idMaxForwards
             if !urlCheckRequest st.method u mf || (st.method == mOPTIONS && mf == 0) then .rej 501 .unsup
             else
-              let fs := checkEntityFraming h st.vmaj st.vmin st.method contentLength
+              let fs := checkEntityFraming cfg.rejectNonGet09 h st.vmaj st.vmin st.method contentLength
               if fs ≠ 0 then .rej fs .framing
               else if st.method == mCONNECT then .connect st.buf
               else .ok st.buf h.entries contentLength st.vmaj st.vmin st.method st.uri
+                     (proxyKeepalive cfg.closeAfterTeCl h.entries st.vmaj st.vmin (clSeen cfg st))
 
 /-- one message: head and body -/
 inductive Step where
@@ -131,10 +144,10 @@ inductive Step where
   | msg (afterHead rest : Bytes) (d : Desc)             -- complete: `rest` is `inBuf` after the body
   deriving DecidableEq, Repr
 
-def descOf (k : Kind) (es : List Entry) (contentLength : Int) (vmaj vmin : Nat) (m u body : Bytes) : Desc :=
+def descOf (k : Kind) (es : List Entry) (contentLength : Int) (vmaj vmin : Nat) (m u : Bytes) (keep : Bool) (body : Bytes) : Desc :=
   { kind := k, cl := if hasId es idContentLength then some contentLength else none,
     ncl := (es.filter (·.id == idContentLength)).length, te := chunked es, vmaj := vmaj, vmin := vmin, method := m,
-    uri := u, persistent := persistent es vmaj vmin, body := body }
+    uri := u, persistent := keep, body := body }
 
 def step (cfg : Cfg) (url : Bytes → Bytes → Option UrlView) (buf : Bytes) : Step :=
   match head cfg url buf with
@@ -142,21 +155,21 @@ def step (cfg : Cfg) (url : Bytes → Bytes → Option UrlView) (buf : Bytes) : 
   | .rej s w => .rej s w
   | .throws => .throws
   | .connect r => .connect r
-  | .ok rest es contentLength vmaj vmin m u =>
+  | .ok rest es contentLength vmaj vmin m u keep =>
     match bodyKind es contentLength with
-    | .none => .msg rest rest (descOf .none es contentLength vmaj vmin m u [])
+    | .none => .msg rest rest (descOf .none es contentLength vmaj vmin m u keep [])
     | .length n =>
-      if rest.length < n then .body rest (descOf .cl es contentLength vmaj vmin m u rest)
-      else .msg rest (rest.drop n) (descOf .cl es contentLength vmaj vmin m u (rest.take n))
+      if rest.length < n then .body rest (descOf .cl es contentLength vmaj vmin m u keep rest)
+      else .msg rest (rest.drop n) (descOf .cl es contentLength vmaj vmin m u keep (rest.take n))
     | .chunkedBody =>
-      if rest.isEmpty then .body rest (descOf .ch es contentLength vmaj vmin m u [])
+      if rest.isEmpty then .body rest (descOf .ch es contentLength vmaj vmin m u keep [])
       else
         -- handleChunkedRequestBody: `bodyParser->parse(inBuf); inBuf = bodyParser->remaining()` (repeated while the parser
         -- asks for pipe space, which `pipeSpace` octets of space make unnecessary below 1 GB)
         let run := Chunked.feed cfg.relaxed (fun _ => pipeSpace) Chunked.Run.init rest
         match run.verdict with
-        | .done => .msg rest run.inBuf (descOf .ch es contentLength vmaj vmin m u run.out)
-        | .more => .body rest (descOf .ch es contentLength vmaj vmin m u run.out)
+        | .done => .msg rest run.inBuf (descOf .ch es contentLength vmaj vmin m u keep run.out)
+        | .more => .body rest (descOf .ch es contentLength vmaj vmin m u keep run.out)
         | .tooLarge => .rej 0 .chunk
         | .reject _ => .rej 0 .chunk
 
